@@ -788,7 +788,7 @@ impl World {
             all.push(Ev::Stop);
         }
         all.extend(opts);
-        if std::env::var_os("MC_SHOW_OPTIONS").is_some() {
+        if crate::mock::show_options() {
             self.log.push(Rec::S("options", format!("{all:?}")));
         }
         let k = self.ch.borrow_mut().choose("step", all.len());
